@@ -86,6 +86,8 @@ class Exec:
         if ps is None:
             ps = self._psolver = z3.Solver()
             ps.set("timeout", self.ctx.prune_solver_ms)
+            # the wall-clock timeout is not honoured inside some nonlinear procedures; the resource limit is (and is deterministic)
+            ps.set("rlimit", int(self.ctx.options.get("prune_rlimit", 2000000)))
             self._pcount = [0, 0, 0]
             for h in self.ctx.global_axioms:
                 ps.add(h)
@@ -98,13 +100,17 @@ class Exec:
         srcs = (E.PENDING_FACTS, self.st.facts, self.st.pc)
         for k, src in enumerate(srcs):
             for h in src[self._pcount[k]:]:
-                ps.add(h)
+                # nonlinear hypotheses are left out of the PRUNING solver (fewer hypotheses = more paths kept: sound); with them
+                # the incremental solver can spend unbounded time in nonlinear procedures that ignore its timeout
+                if not _is_nonlinear(h):
+                    ps.add(h)
             self._pcount[k] = len(src)
+        from .solve import safe_check
         if extra is None:
-            return ps.check() != z3.unsat
+            return safe_check(ps, self.ctx.prune_solver_ms) != z3.unsat
         ps.push()
         ps.add(extra)
-        r = ps.check()
+        r = safe_check(ps, self.ctx.prune_solver_ms)
         ps.pop()
         return r != z3.unsat
 
@@ -181,7 +187,9 @@ class Exec:
         fr = self.frames[0] if self.frames else None
         loc = loc_of(self.frames[-1], node) if (node is not None and self.frames) else None
         if isinstance(goal, bool) and "canary" not in kind:
-            static = goal if static is None else static
+            # a goal that is literally True needs no solver; a literally False goal still holds if the path is infeasible, which
+            # only the full solver (with the nonlinear hypotheses the pruning solver leaves out) can tell
+            static = (True if goal else None) if static is None else static
         ob = self.ctx.oblige(_HypView(self.hyps()), kind, goal if not isinstance(goal, bool) else z3.BoolVal(goal),
                              clause, loc, static=static, backend=backend, tag=tag)
         ob.path = list(self.log)
@@ -238,6 +246,10 @@ class Exec:
             except PathEnd:
                 continue
         self.ctx.paths += npaths
+        for key in (contract.asserts or {}):
+            if not self.ctx.__dict__.get("anchor_hits", {}).get(key):
+                raise Unsupported(f"ghost anchor {key!r} of the contract was never reached: the statement it names no longer exists "
+                                  f"(contract out of date)")
         for (cname, cloc), (entered, survived) in self.ctx.__dict__.get("call_survival", {}).items():
             if entered and not survived:
                 dead = self.ctx.__dict__.get("call_dead_clause", {}).get((cname, cloc))
@@ -314,18 +326,64 @@ class Exec:
         c = fr.contract
         if c is None or not c.asserts:
             return
-        key = ("before:" if before else "after:") + ast.unparse(s).split("\n")[0]
-        for cl in c.asserts.get(key, []):
-            self.run_ghost(cl, env, fr, s)
+        line = ast.unparse(s).split("\n")[0]
+        when = "before" if before else "after"
+        hits = self.ctx.__dict__.setdefault("anchor_hits", {})
+        for key, stmts in c.asserts.items():
+            # "after:<statement>" exact first line; "after^<prefix>" / "after^<prefix>#k": the k-th statement executed on this path
+            # whose first line starts with <prefix> (robust against edits of the right-hand side)
+            if key.startswith(when + ":"):
+                ok = key[len(when) + 1:] == line
+            elif key.startswith(when + "^"):
+                pref, _, kth = key[len(when) + 1:].partition("#")
+                ok = line.startswith(pref)
+                if ok:
+                    cnt = self.st.__dict__.setdefault("_anchor_counts", {})
+                    seen_k = cnt.get(key, 0)
+                    cnt[key] = seen_k + 1
+                    ok = seen_k == int(kth or 0)
+            else:
+                ok = False
+            if ok:
+                hits[key] = hits.get(key, 0) + 1
+                for cl in stmts:
+                    self.run_ghost(cl, env, fr, s)
 
     def run_ghost(self, cl, env, fr, node):
         """ghost statement: 'assert <clause>' proves then assumes; 'assume' is not available."""
         kind, _, body = cl.partition(" ")
         cenv = dict(env)
         cenv.update(self.st.ghostvars)
-        if kind == "assert":
+        if kind == "lemma" and " using " in body:
+            # lemma <goal> using <p1>; <p2>; ... : the goal is proved from the listed premises ALONE (a clean context for nonlinear
+            # arithmetic); every premise is itself an obligation under the full hypotheses of the path
+            goal_src, _, prem_src = body.partition(" using ")
+            prems = []
+            for ps in [x.strip() for x in prem_src.split(";") if x.strip()]:
+                pz = to_z3(self.eval_clause(ps, cenv, NORESULT), "bool")
+                self.oblige("lemma_premise", pz, ps, node)
+                prems.append(pz)
+            g = self.eval_clause(goal_src, cenv, NORESULT)
+            ob = self.oblige("lemma", g, goal_src.strip(), node)
+            if ob is not None:
+                # generalise: every maximal subterm that is not polynomial arithmetic over variables (ite, division, function
+                # applications ...) becomes a fresh variable, consistently in premises and goal - the generalised implication
+                # entails this instance, and the solver sees a pure polynomial problem
+                memo = {}
+                ob.hyps = [_poly_abstract(h, memo) for h in prems]
+                ob.goal = _poly_abstract(to_z3(g, "bool"), memo)
+            self.assume(g)
+            return
+        if kind in ("assert", "lemma"):
             g = self.eval_clause(body, cenv, NORESULT)
-            self.oblige("ghost_assert", g, body, node)
+            ob = self.oblige("ghost_assert" if kind == "assert" else "lemma", g, body, node)
+            if kind == "lemma" and ob is not None:
+                # lemma <clause>: proved from the quantifier-free hypotheses in the cone of influence of the clause only (dropping
+                # hypotheses is sound and keeps nonlinear goals away from the trig / array axioms), then available like an assert
+                from .objmodels import _relevant_hyps
+                gz = to_z3(g, "bool")
+                hs = [h for h in ob.hyps if not z3.is_quantifier(h) and not _has_quant(h)]
+                ob.hyps = _relevant_hyps(hs, [gz], {})
             self.assume(g)
         elif kind == "define":
             # define f(a1, ..., an) = e : ghost definition of the spec function f at these arguments.  Well-definedness (e is a function
@@ -2260,6 +2318,77 @@ def _as_load(t):
 
 def _has_call(n):
     return any(isinstance(x, ast.Call) for x in ast.walk(n))
+
+
+_POLY_OPS = {z3.Z3_OP_ADD, z3.Z3_OP_SUB, z3.Z3_OP_MUL, z3.Z3_OP_UMINUS, z3.Z3_OP_LE, z3.Z3_OP_LT, z3.Z3_OP_GE, z3.Z3_OP_GT, z3.Z3_OP_EQ,
+             z3.Z3_OP_DISTINCT, z3.Z3_OP_AND, z3.Z3_OP_OR, z3.Z3_OP_NOT, z3.Z3_OP_IMPLIES, z3.Z3_OP_TRUE, z3.Z3_OP_FALSE, z3.Z3_OP_ANUM,
+             z3.Z3_OP_TO_REAL}
+
+
+def _poly_abstract(t, memo):
+    """replace every maximal non-polynomial subterm of real / int sort by a fresh constant (same subterm -> same constant)"""
+    k = t.get_id()
+    if k in memo:
+        return memo[k]
+    if z3.is_app(t):
+        kind = t.decl().kind()
+        if t.num_args() == 0:
+            r = t
+        elif kind in _POLY_OPS:
+            r = t.decl()(*[_poly_abstract(c, memo) for c in t.children()])
+        elif z3.is_bool(t):
+            r = z3.Const(fresh_name("absb"), z3.BoolSort())
+        else:
+            r = z3.Const(fresh_name("abs"), t.sort())
+    else:
+        r = z3.Const(fresh_name("abs"), t.sort()) if not z3.is_bool(t) else z3.Const(fresh_name("absb"), z3.BoolSort())
+    memo[k] = r
+    return r
+
+
+_NL_MEMO = {}
+
+
+def _is_nonlinear(t):
+    """does the formula contain a product of two non-numeral terms, a division / modulo by a non-numeral, or a power?"""
+    key = t.get_id()
+    if key in _NL_MEMO and _NL_MEMO[key][0] is t:
+        return _NL_MEMO[key][1]
+    seen, stack, res = set(), [t], False
+    while stack and not res:
+        x = stack.pop()
+        if x.get_id() in seen:
+            continue
+        seen.add(x.get_id())
+        if z3.is_quantifier(x):
+            stack.append(x.body())
+            continue
+        if z3.is_app(x):
+            k = x.decl().kind()
+            ch = x.children()
+            if k == z3.Z3_OP_MUL and sum(1 for c in ch if not (z3.is_rational_value(c) or z3.is_int_value(c) or z3.is_algebraic_value(c))) >= 2:
+                res = True
+            elif k in (z3.Z3_OP_DIV, z3.Z3_OP_IDIV, z3.Z3_OP_MOD, z3.Z3_OP_REM) and len(ch) == 2 \
+                    and not (z3.is_rational_value(ch[1]) or z3.is_int_value(ch[1])):
+                res = True
+            elif k == z3.Z3_OP_POWER:
+                res = True
+            stack.extend(ch)
+    _NL_MEMO[key] = (t, res)
+    return res
+
+
+def _has_quant(t):
+    seen, stack = set(), [t]
+    while stack:
+        x = stack.pop()
+        if x.get_id() in seen:
+            continue
+        seen.add(x.get_id())
+        if z3.is_quantifier(x):
+            return True
+        stack.extend(x.children())
+    return False
 
 
 def _mentions(term, const):
